@@ -391,6 +391,26 @@ def sec_domain(rep):
     c16.sec_kinematics(rep)
 
 
+def sec_runner_wiring(rep):
+    """Runner.__init__ hands the TMC constructors exactly the card's target mass and mode:
+    configs.M2target = MP**2 (MP = 0 included: 'no correction' must stay reachable from a card)
+    and configs.TMC = TMC.  sec_init / sec_dispatch read these two attributes symbolically."""
+    from yadism import runner
+
+    rep.under_contract(runner.Runner.__init__)
+    for mp in (0, 0.0, 1e-8, 0.3, 0.938, 2, np.float64(0.0), np.float64(1.5)):
+        for tmc_mode in (0, 1, 2, 3):
+            rep.cases += 1
+            try:
+                r = runner.Runner(H.base_theory(MP=mp, TMC=tmc_mode), H.base_obs())
+                got = (r.configs.M2target, r.configs.TMC)
+                ok = got[0] == mp**2 and got[1] == tmc_mode
+                detail = f"configs.M2target={got[0]!r} configs.TMC={got[1]!r}"
+            except Exception as e:  # noqa
+                ok, detail = False, f"{type(e).__name__}: {e}"
+            rep.add(ob_eval(f"C10/Runner.__init__/configs.M2target = MP**2, configs.TMC = TMC/MP={mp!r}:{type(mp).__name__}/TMC={tmc_mode}", ok, detail=detail, inputs={} if ok else {"MP": repr(mp), "TMC": tmc_mode, "observed": detail, "expected_M2target": repr(mp**2)}))
+
+
 def run(rep, tier, seed, only=None):
     from pvc.core import lean_lemmas
 
@@ -404,7 +424,7 @@ def run(rep, tier, seed, only=None):
         "sqrt atom carries rho^2 = 1 + 4 x^2 M2/Q2; continuity at M=0 from definedness of all coefficients for M2 >= 0",
     )
     rep.stub("sf.StructureFunction -> SFStub (abstract structure functions)", "conv.convolution -> abstract I[weight](j), weight decided semantically from the kernel passed", "eko interpolator -> 4-node stub")
-    for nm, f in (("kernels", sec_kernels), ("lcov", sec_lcov), ("init", sec_init), ("formulas", sec_formulas), ("dispatch", sec_dispatch), ("convolve", sec_convolve), ("limit", sec_limit), ("domain", sec_domain)):
+    for nm, f in (("kernels", sec_kernels), ("lcov", sec_lcov), ("init", sec_init), ("formulas", sec_formulas), ("dispatch", sec_dispatch), ("convolve", sec_convolve), ("limit", sec_limit), ("domain", sec_domain), ("runnerwiring", sec_runner_wiring)):
         if only and only not in nm:
             continue
         if nm in ("formulas", "convolve"):
